@@ -123,6 +123,12 @@ func refereeOne(r *rng.R) map[string]interface{} {
 		}
 		script = append(script, lcw.Cmd{Kind: "probe"})
 	}
+	manual := map[int]bool{}
+	if r.Chance(1, 3) { // a covered (hidden) mount, then umount: keeps hidden_at of the kernel model refereed (r5_c03.go)
+		if s, m := refereeCovered(r, ws, in.Cfg); s != nil {
+			script, manual = s, m
+		}
+	}
 	for _, c := range script {
 		in.Steps = append(in.Steps, lcw.StepIn{Cmd: c})
 	}
@@ -133,8 +139,8 @@ func refereeOne(r *rng.R) map[string]interface{} {
 	}
 	// (b) real
 	req := rk.Request{In: in, Bin: os.Getenv("LCV_RUN") + "/layercake"}
-	for _, c := range script {
-		req.Steps = append(req.Steps, rk.Step{Argv: argvOf(c)})
+	for i, c := range script {
+		req.Steps = append(req.Steps, rkStep(c, manual[i]))
 	}
 	resp, err := rk.Run(req)
 	if err != nil {
